@@ -5,7 +5,7 @@
    (current_tree = repaired = /repo since the fix commits debdde2 F3, d92e32e F4, daaaf4c F22;
    unrepaired = the code before them, about which the REFUTED statements speak). *)
 From Coq Require Import List ZArith Bool.
-From BLB Require Import C18.Model C18.Proofs C18.Proofs2.
+From BLB Require Import C18.Model C18.Proofs C18.Proofs2 C18.Serial.
 Import ListNotations.
 Open Scope Z_scope.
 
@@ -77,7 +77,7 @@ Theorem sections_gcgone_refuted :
 Proof. exact gcgone_witness. Qed.
 Print Assumptions sections_gcgone_refuted.
 
-(* [FULL] any tree: while a reader (Read, Stat, Check) is inside its section, no step of any other operation except the lock-free GC gone path changes the file of its tract, so the version it checks and the data or size it returns belong to one state *)
+(* [FULL] any tree: while a reader (Read, Stat, Check, scrub step) is inside its section, no step of any other operation except the lock-free GC gone path changes the file of its tract, so the version it checks and the data or size it returns belong to one state *)
 Theorem read_sees_one_state :
   forall V s i j inj s' a b,
     reachable V s -> sys_step V s j inj = Some s' ->
@@ -119,6 +119,19 @@ Theorem manager_open_count_balanced :
   forall V rs n, fixF4 V = true -> mgr_run V n rs = n + countz is_open_ok rs - countz is_close rs.
 Proof. exact mgr_balanced. Qed.
 Print Assumptions manager_open_count_balanced.
+
+(* [PARTIAL] serial equivalence for operation sets on ONE tract, any tree, every schedule, every oracle answer, every wake-up order, all modelled operations except the lock-free GC gone path: when all operations have returned, the operations that got the tract lock, taken in the order in which they released it (the acquisition order for exclusive operations, overlapping readers commute), each run alone on an idle store from the state its predecessor left, yield exactly the per-operation results and the final tract map and disk contents of the interleaved execution; every other operation was refused (busy, bad version, invalid argument) and changed nothing. Missing for FULL: operation sets spanning several tracts (follows from the frame clause of sections_do_not_interleave but is not assembled) and the gone path *)
+Theorem serial_equivalence_partial :
+  forall V id ops g0 sched,
+    init_g g0 -> Forall (ok_op id) ops ->
+    let s := run_sched V (g0, map new_thread ops) sched in
+    quiescent s ->
+    exists ch,
+      Ser V ops (proj g0) ch (proj (fst s)) /\ NoDup (map fst ch) /\
+      (forall i r, In (i, r) ch -> exists t, nth_error (snd s) i = Some t /\ t_pc t = PDone /\ l_res (t_loc t) = r) /\
+      (forall i t, nth_error (snd s) i = Some t -> (exists r, In (i, r) ch) \/ refusal (o_kind (t_op t)) (l_res (t_loc t))).
+Proof. exact serial_equivalence_one_tract. Qed.
+Print Assumptions serial_equivalence_partial.
 
 (* [FULL] the tree the FULL theorems above are instantiated at: the current tree carries all three fixes *)
 Theorem current_tree_is_repaired :
